@@ -43,6 +43,24 @@ CHECKS = {
             "0/1/4) and compared by address and index; complete inside that scope.",
             "scope bounds as stated; little-endian schema only (byte order is orthogonal to iterator arithmetic)",
             "DESIGN.md section 3, C12"),
+    "C16": ("exploration",
+            "in-process reference of the documented null/ordering rule over all pairs of a boundary value set, for "
+            "generated and built-in types; static min/max/null compared bit-exactly with values computed from the XML",
+            "All 11 primitives x built-in wrappers, attribute-less schema types and 2-3 explicit flavours (about 120 types): "
+            "every predicate and comparison (incl. <=> on C++20/23) on every ordered pair of boundary values incl. "
+            "NaN/inf/-0.0/extremes is executed and compared with the documented rule; defaults compared with the SBE "
+            "table. Held on those pairs and types only.",
+            "NaN-aware reading of 'is null'; float literals converted like the compiler does (text->double->float)",
+            "DESIGN.md section 3, C16"),
+    "C20": ("fault_enumeration",
+            "LD_PRELOAD fault injection at every output-directed libc call of the release binary, one fault per run; "
+            "exit status and on-disk bytes compared with the fault-free run",
+            "Every single mkdir/fopen/write/writev call sbeppc makes towards the output directory (counted by a dry run) is "
+            "made to fail with ENOSPC/EACCES/EIO, to write short, and to write short then fail, for several schemas; "
+            "INJECTED => exit != 0 with a diagnostic, exit 0 => byte-identical files. Complete over single faults at "
+            "those call sites for the schemas used; determinism checked over repeated/populated/sanitizer runs.",
+            "single fault per run; close()/fsync failures and faults in the input path are outside the property",
+            "DESIGN.md section 3, C20"),
 }
 
 
